@@ -20,10 +20,12 @@ HOpsF == {x \in AllHF : x.pat \in PatsFor(x.chain)}
 \* long-lived facade objects: created once (MOpsF), used by later calls - a Prefix / Resource made BEFORE a Router.Use
 \* must still see that middleware, and objects must not share state
 Ch1 == <<Pf("/api", <<"a">>)>>   Ch2 == <<Pf("/api", <<"a">>), Pf("/v", <<"b", "c">>)>>   Ch3 == <<Pf("/api", <<>>), Pf("/r/{id}", <<"b">>)>>
-MOpsF == {MkF("f1", Ch1, FALSE), MkF("f2", Ch2, FALSE), MkF("f3", Ch3, TRUE), Misc(<<>>, FALSE), Misc(Ch2, FALSE), Misc(Ch3, TRUE)}
+Ch4 == <<Pf("/api", <<"a">>), Pf("", <<"z">>)>>       \* an empty nested prefix with a middleware of its own, made from f1
+MOpsF == {MkF("f1", Ch1, FALSE), MkF("f2", Ch2, FALSE), MkF("f3", Ch3, TRUE), MkFrom("f4", "f1", Ch4, FALSE), MkFrom("f5", "f1", <<Pf("/api", <<"a">>), Pf("/r2", <<"y">>)>>, TRUE), Misc(<<>>, FALSE), Misc(Ch2, FALSE), Misc(Ch3, TRUE)}
 HObjF == {HFo("f1", Ch1, FALSE, p, ms, mw) : p \in {"/x", "/{id}"}, ms \in {G, P}, mw \in MwsF}
          \cup {HFo("f2", Ch2, FALSE, p, ms, mw) : p \in {"/x", ""}, ms \in {G, P}, mw \in MwsF}
          \cup {HFo("f3", Ch3, TRUE, "", ms, mw) : ms \in {G, P}, mw \in MwsF}
+         \cup {HFo("f4", Ch4, FALSE, p, G, <<>>) : p \in {"/x", "/z4"}}
 HOpsFO == HOpsF \cup HObjF
 ROpsF == {RmF(ch, FALSE, p, ms) : ch \in ChainsF \ {<<Pf("/api/{i", <<>>)>>}, p \in {"/x", "/{id}"}, ms \in {<<>>, G}}
          \cup {RmF(ch, TRUE, "", ms) : ch \in ResF, ms \in {<<>>, G}}
@@ -33,14 +35,15 @@ CfgsF == {Cfg(FALSE), Cfg(TRUE)}
 BasesF == {<<>>, <<HF(<<Pf("/api", <<"a">>)>>, FALSE, "/x", G, <<"m", "n">>), HF(<<>>, FALSE, "/x", P, <<>>), HF(<<Pf("/q", <<"c", "d">>)>>, TRUE, "", G, <<>>)>>}
 ProbesF == <<W("/api/x", <<>>), W("/api/{id}", [id |-> "7q"]), W("/api", <<>>), W("/api/v/x", <<>>), W("/api/v/{id}", [id |-> "7q"]), W("/api/v", <<>>),
              W("/api/{id}/x", [id |-> "7q"]), W("/api/r/{id}", [id |-> "7q"]), W("/q", <<>>), W("/x", <<>>), W("/{id}", [id |-> "7q"]),
-             W("/api/r/{id}/x", [id |-> "7q"]), W("/q/x", <<>>),
+             W("/api/r/{id}/x", [id |-> "7q"]), W("/q/x", <<>>), W("/api/z4", <<>>),
              A("/nope/7"), A("/api/v/7q/8"), A(""), A("*")>>
 MethodsF == <<"GET", "HEAD", "POST", "OPTIONS", "PUT", "TRACE">>
 UrlSetF == {UrlP("", st, ch, FALSE, p, m) : st \in BOOLEAN, ch \in {<<>>, <<Pf("/api", <<"a">>)>>, <<Pf("/api", <<"a">>), Pf("/v", <<"b", "c">>)>>}, p \in {"/x", "/{id}"},
                                             m \in {<<>>, [id |-> "5"], [zz |-> "1"]}}
            \cup {UrlP("", st, ch, TRUE, "", m) : st \in BOOLEAN, ch \in ResF, m \in {<<>>, [id |-> "5"], [id |-> "5/6"]}}
 BasesFO == BasesF \cup {<<MkF("f1", Ch1, FALSE), MkF("f2", Ch2, FALSE), MkF("f3", Ch3, TRUE)>>,
-                        <<Us(<<"u">>), MkF("f1", Ch1, FALSE), MkF("f3", Ch3, TRUE)>>}
+                        <<Us(<<"u">>), MkF("f1", Ch1, FALSE), MkF("f3", Ch3, TRUE)>>,
+                        <<MkF("f1", Ch1, FALSE), MkFrom("f4", "f1", Ch4, FALSE), MkFrom("f5", "f1", <<Pf("/api", <<"a">>), Pf("/r2", <<"y">>)>>, TRUE)>>}
 \* sub-alphabet FC: routes registered exactly AT a prefix / resource pattern and below it, then every Clean / Remove (depth 3, unsampled)
 ChainsFC == {<<Pf("/api", <<"a">>)>>, <<Pf("/api", <<"a">>), Pf("/v", <<"b", "c">>)>>}
 HOpsFC == {HF(ch, FALSE, p, G, <<>>) : ch \in ChainsFC, p \in {"", "/x", "/{id}"}} \cup {HF(ch, TRUE, "", G, <<>>) : ch \in ResF}
